@@ -319,5 +319,24 @@ func GenPatterns(r *core.Rand, max int, allowNeg bool, paths ...string) []string
 		// a leading negation is legal too
 		out = append([]string{GenPattern(r, true)}, out...)
 	}
+	if len(out) > 0 && r.P(1, 30) {
+		// a byte order mark in front of a pattern (what an editor leaves at
+		// the start of an ignore file): the matcher's expression scanner
+		// drops it, the pattern text still has it
+		i := r.Intn(len(out))
+		if body := strings.TrimPrefix(out[i], "!"); body != "" {
+			out[i] = out[i][:len(out[i])-len(body)] + "\ufeff" + body
+		}
+		if len(paths) > 0 && r.P(1, 2) {
+			// the shape on which directory pruning and the matcher can
+			// disagree: literal prefix, trailing /*, nothing else
+			if q := core.Pick(r, paths); strings.Contains(q, "/") {
+				out = []string{"\ufeff" + q[:strings.LastIndex(q, "/")] + "/*"}
+				if allowNeg && r.P(1, 2) {
+					out = []string{strings.SplitN(q, "/", 2)[0], "!" + out[0]}
+				}
+			}
+		}
+	}
 	return out
 }
